@@ -724,18 +724,19 @@ pub fn lib_runtime(k: u8) -> Vec<u8> {
     }
 }
 
-pub const INIT_KINDS: u8 = 7;
+pub const INIT_KINDS: u8 = 10;
 
 /// Init-code library.
 /// 0: deploy lib 0            1: deploy lib 1 (self-destructor)     2: deploy empty runtime
 /// 3: reverting init          4: SSTORE(1,7); SSTORE(2,9); deploy lib 0
 /// 5: init self-destructs to caller   6: SSTORE(0, SELFBALANCE... ) deploy lib 0 after reading CALLER balance
+/// 7-9: call routine 0 and routine 1 of EOA 0-2 (runs its delegate's code, if any, in the EOA's context), deploy lib 0
 pub fn init_code(kind: u8) -> Vec<u8> {
     let kind = kind % INIT_KINDS;
     let w = World { eoas: vec![], contracts: vec![], beneficiary: AddrRef::Absent(0xBE), placed: vec![] };
     let mut a = Asm::new(&w);
     let runtime = match kind {
-        0 | 4 | 6 => lib_runtime(0),
+        0 | 4 | 6 | 7 | 8 | 9 => lib_runtime(0),
         1 => lib_runtime(1),
         _ => lib_runtime(2),
     };
@@ -756,6 +757,11 @@ pub fn init_code(kind: u8) -> Vec<u8> {
             a.op(op::BALANCE);
             a.push_u64(0);
             a.op(op::SSTORE);
+        }
+        7..=9 => {
+            for sel in 0..2u8 {
+                a.stmt(&Stmt::Call { kind: CallKind::Call, target: AddrRef::Eoa(kind - 7), value: 0, sel, arg: None, small_gas: false, store: None });
+            }
         }
         _ => {}
     }
